@@ -1143,23 +1143,34 @@ def hash_args_eval(
     def keep_arg(param_name: str, value: Any) -> bool:
         return param_name not in config_args and not isinstance(value, JobInfo)
 
-    # Determine the variadic parameter if it exists.
+    # Determine the parameters that positional arguments bind to, and the variadic parameter
+    # if it exists. Keyword-only parameters (those after `*args`) never bind positionally.
+    positional_param_names: list[str] = []
     var_param_name: typing.Optional[str] = None
     for param in sig.parameters.values():
-        if param.kind == inspect.Parameter.VAR_POSITIONAL:
+        if param.kind in (
+            inspect.Parameter.POSITIONAL_ONLY,
+            inspect.Parameter.POSITIONAL_OR_KEYWORD,
+        ):
+            positional_param_names.append(param.name)
+        elif param.kind == inspect.Parameter.VAR_POSITIONAL:
             var_param_name = param.name
+            break
+        else:
             break
 
     # Filter args to remove config_args.
     args2 = [
         arg_value
-        for arg_name, arg_value in zip(sig.parameters, args)
+        for arg_name, arg_value in zip(positional_param_names, args)
         if keep_arg(arg_name, arg_value)
     ]
 
     # Additional arguments are assumed to be variadic arguments.
     args2.extend(
-        arg_value for arg_value in args[len(sig.parameters) :] if var_param_name not in config_args
+        arg_value
+        for arg_value in args[len(positional_param_names) :]
+        if var_param_name not in config_args
     )
 
     # Filter kwargs.
